@@ -154,13 +154,18 @@ def theorems_in(relpath):
 def audit_axioms(module, names, namespace="Unc"):
     """Run `#print axioms` for each theorem; returns {name: [axioms]} or raises."""
     os.makedirs(os.path.join(CACHE, "audit"), exist_ok=True)
-    path = os.path.join(CACHE, "audit", module.replace(".", "_") + ".lean")
-    with open(path, "w") as f:
-        f.write("import %s\nopen %s\n" % (module, namespace))
-        for n in names:
-            f.write("#print axioms %s\n" % n)
+    # one file per process: several checks audit the same module (Props.Render) concurrently
+    path = os.path.join(CACHE, "audit", "%s_%d.lean" % (module.replace(".", "_"), os.getpid()))
     with Lock("lake"):
+        with open(path, "w") as f:
+            f.write("import %s\nopen %s\n" % (module, namespace))
+            for n in names:
+                f.write("#print axioms %s\n" % n)
         r = sh(["lake", "env", "lean", path], cwd=LEAN_DIR)
+        try:
+            os.unlink(path)
+        except OSError:
+            pass
     res = {}
     text = r.stdout
     for m in re.finditer(r"'([^']+)' (does not depend on any axioms|depends on axioms: \[([^\]]*)\])", text, re.S):
